@@ -26,7 +26,8 @@ extern void dispatch_queue_set_width(dispatch_queue_t dq, long width);
 #define QOBJ 2000
 #define MAXQ 256
 #define MAXB 64
-static _Atomic int c10_rec; static int c10_permille;
+#define REC_LIMIT 300   /* participations of applies with more iterations are not recorded (volume) */
+static _Atomic int c10_rec; static int c10_permille; static __thread uintptr_t skip_base;
 static _Atomic uintptr_t qtab[MAXQ]; static _Atomic int nqtab;
 static _Atomic uintptr_t bases[MAXB]; static _Atomic int nbases;
 
@@ -51,10 +52,13 @@ static void c10_cb(const volatile void *addr, unsigned size, int kind, int order
 		if (fl >= 7 && !strcmp(file + fl - 7, "apply.c")) {
 			int qi = q_lookup(p);
 			if (qi >= 0) dv_push(t, kind, order, QOBJ + qi, 0, (int)size, a, b, ok, line);
-			else {
+			else if (skip_base && p >= skip_base && p < skip_base + sizeof(struct dispatch_apply_s)) {
+				if (kind == DV_SUB && size == 4) skip_base = 0;      // the final decrement of da_thr_cnt ends the skipped run
+			} else {
 				int bi;
 				if (kind == DV_ADD && size == 8 && order == 2) {   // entry of _dispatch_apply_invoke2: the caller of this
 					uintptr_t base = p - offsetof(struct dispatch_apply_s, da_index);   // operation holds a unit of da_thr_cnt
+					if (((struct dispatch_apply_s *)base)->da_iterations > REC_LIMIT) { skip_base = base; goto perturb; }
 					bi = base_register(base);
 					dv_push(t, DVU_MARK, 0, bi, 0, 0, ((struct dispatch_apply_s *)base)->da_iterations, 0, 1, 0);
 				} else bi = base_lookup(p);
@@ -62,10 +66,11 @@ static void c10_cb(const volatile void *addr, unsigned size, int kind, int order
 				else dv_push(t, kind, order, -1, 0, (int)size, a, b, ok, line);
 			}
 		} else if (fl >= 6 && (!strcmp(file + fl - 6, "lock.h") || !strcmp(file + fl - 6, "lock.c"))) {
-			int bi = base_lookup(p);
+			int bi = (skip_base && p >= skip_base && p < skip_base + sizeof(struct dispatch_apply_s)) ? -1 : base_lookup(p);
 			if (bi >= 0) dv_push(t, kind, order, bi, (long)(p - atomic_load(&bases[bi])), (int)size, a, b, ok, line);
 		}
 	}
+perturb:
 	if (c10_permille) {
 		uint64_t r = dv_rand(t);
 		if ((int)(r % 1000) < c10_permille) { if ((r >> 20) & 3) sched_yield(); else usleep((useconds_t)((r >> 24) % 60)); }
@@ -226,7 +231,7 @@ static inst_t *_Atomic all_inst; static _Atomic int next_aid; static _Atomic lon
 typedef struct bar { struct bar *next; int kind; uint64_t b, e; } bar_t; static bar_t *_Atomic all_bars;
 static __thread int cur_depth;
 static const size_t small_n[] = {0, 1, 2, 3, 5, 15, 16, 17, 40};
-static void run_apply(int depth, int kind, size_t n, uint64_t rng, int rec);
+static void run_apply(int depth, int kind, size_t n, uint64_t rng);
 static void s_work(void *ctx, size_t i) {
 	inst_t *I = ctx; uint64_t b = stamp();
 	if (I->rec) dv_user(DVU_CALLOUT_BEGIN, I->aid, i, 0);
@@ -237,7 +242,7 @@ static void s_work(void *ctx, size_t i) {
 	if (I->n <= 4096) { spin(x); if ((x & 63) == 1) usleep((useconds_t)((x >> 8) % 120)); else if ((x & 15) == 2) sched_yield(); }
 	if (I->depth + 1 < MAXDEPTH && (x >> 20) % 4 == 0 && atomic_fetch_sub(&I->nested_left, 1) > 0) {
 		int save = cur_depth; cur_depth = I->depth + 1;
-		run_apply(I->depth + 1, (int)((x >> 24) % NKIND), small_n[(x >> 32) % (sizeof small_n / sizeof *small_n)], x, I->rec);
+		run_apply(I->depth + 1, (int)((x >> 24) % NKIND), small_n[(x >> 32) % (sizeof small_n / sizeof *small_n)], x);
 		cur_depth = save;
 	}
 	uint64_t e = stamp(), m = atomic_load(&I->maxend);
@@ -250,8 +255,8 @@ static void fail(inst_t *I, const char *what, long long x, long long y) {
 	atomic_fetch_add(&nfail, 1);
 	printf("F %d %s n=%zu queue=%s depth=%d x=%lld y=%lld\n", I->aid, what, I->n, kname[I->kind], I->depth, x, y); fflush(stdout);
 }
-static void run_apply(int depth, int kind, size_t n, uint64_t rng, int rec) {
-	inst_t *I = calloc(1, sizeof *I);
+static void run_apply(int depth, int kind, size_t n, uint64_t rng) {
+	inst_t *I = calloc(1, sizeof *I); int rec = n <= REC_LIMIT;
 	I->aid = atomic_fetch_add(&next_aid, 1); I->kind = kind; I->depth = depth; I->n = n; I->rng = rng; I->rec = rec;
 	I->hits = calloc(n ? n : 1, 1); atomic_store(&I->nested_left, depth == 0 ? 3 : 1);
 	if (n <= 4096) { I->beg = calloc(n ? n : 1, 8); I->end = calloc(n ? n : 1, 8); }
@@ -283,10 +288,9 @@ static void *driver(void *a) {
 	for (int r = 0; r < d->rounds; r++) {
 		uint64_t x = sm(&s); int kind = (int)(x % NKIND); size_t n = ns[(x >> 8) % (sizeof ns / sizeof *ns)];
 		if (r < d->big) { n = (r & 1) ? 100000 : 1000; kind = (int)((x >> 40) % NKIND); }
-		int rec = n <= 300;
 		if (zoo_serial[kind] && n > 1000) n = 1000;
 		if (d->id == 0 && ((x >> 16) & 3) == 0) set_cpus((uint32_t[]){2, 3, 5, 24}[(x >> 20) & 3]); else if (d->id == 0) set_cpus(cpus0);
-		run_apply(0, kind, n, x, rec);
+		run_apply(0, kind, n, x);
 	}
 	atomic_fetch_add(&drivers_done, 1);
 	return NULL;
